@@ -129,7 +129,7 @@ def main(a):
                 print("  " + d[:400])
             if rep.get("hash") and r["sig"] == rep.get("signature") and r["hash"] != rep.get("hash"):
                 print("  note: event-log hash differs from the recorded one (%s vs %s): the tree or the toolchain changed since it was recorded" % (r["hash"], rep.get("hash")))
-            if r["sig"] == rep.get("signature"):
+            if orch.same_violation(r["sig"], rep.get("signature")):
                 print("VIOLATION property=%s replay=%s" % (PROP, a.replay))
                 return 1
             return 0
